@@ -117,6 +117,31 @@ def leaf_contract(ctx, prog):
                    {"returns": show(rv)[:40]}, nontrivial=True)
 
 
+def windows_inherit_list_rule(ctx):
+    """X5w (Windows half of the property): every CreateProcessW call that lets the child inherit handles does so under an explicit
+    inherit list: its creation flags contain EXTENDED_STARTUPINFO_PRESENT (the flag that makes the attribute list take effect).
+    Decided on process.windows.c parsed against the declaration-only windows.h stub; flags that are not compile-time constants
+    give no obligation."""
+    from . import c18
+    try:
+        wprog = c18.win_prog(ctx)
+    except AnalysisBroken:
+        return
+    EXT = 0x00080000
+    n = 0
+    for F in wprog.funcs_all:
+        for call in F.calls("CreateProcessW"):
+            inherit = const_of(wprog, call["c"][5])
+            flags = const_of(wprog, call["c"][6])
+            if flags is None or inherit is None:
+                continue
+            n += 1
+            ctx.ob("C11.X5w", site_of(F, call), "a child that inherits handles is created with an explicit inherit list "
+                   "(EXTENDED_STARTUPINFO_PRESENT set), so it gets the listed handles and nothing else", (not inherit) or bool(flags & EXT),
+                   {"bInheritHandles": inherit, "dwCreationFlags": hex(flags)})
+    ctx.extra["windows_CreateProcessW_calls_checked"] = n
+
+
 def membership_contract(ctx, prog):
     """X2m: the keep-list test answers yes exactly for the members (it decides which descriptors survive the close-all loop)"""
     if "fd_in_set" not in prog.funcs:
@@ -464,3 +489,4 @@ def check(ctx):
     limit_rule(ctx, prog)
     fork_mode_rule(ctx, prog)
     exec_rules(ctx, prog)
+    windows_inherit_list_rule(ctx)
